@@ -29,7 +29,7 @@ ENCODED = [finalizers.block_deletion, finalizers.allow_deletion, finalizers.is_d
            processing.process_resource_causes, patching.patch_obj, daemons.stop_daemons,
            registries.ChangingRegistry.requires_finalizer, registries.SpawningRegistry.requires_finalizer]
 META = {
-    'bounds': 'H1: finalizer lists of length<=4 over {own, a, b} with duplicates. H2: one event. H3: <=3 script steps; one object.',
+    'bounds': 'h_history also with a retry delay of 0 and with two delete handlers run one per cycle. H1: finalizer lists of length<=4 over {own, a, b} with duplicates. H2: one event. H3: <=3 script steps; one object.',
     'outside': 'sync daemons; more than one delete handler; >3 steps',
     'stubs': ['api.patch -> FakeServer with a pre-request hook for the foreign writer'],
     'assumptions': ['Kubernetes rejects a JSON-patch whose resourceVersion test fails with 422 and applies nothing'],
